@@ -86,6 +86,8 @@ type Options struct {
 	Grace   time.Duration // surplus-trace grace period after the end
 	Lang    string
 	Seed    int64
+	// ConcurrentStart: the start events are triggered by concurrent StartWith calls (one each)
+	ConcurrentStart bool
 	// Instant: every request is answered at once, from the goroutine reading the trace stream
 	Instant bool
 	Auto    bool                // after the schedule: keep answering pending requests (random order) until completion
@@ -493,6 +495,32 @@ func Run(runIdx int, p *prog.Program, sch *Schedule, o Options) []Rec {
 	r.mu.Unlock()
 
 	startOK := callWithin(o.T, func() {
+		if o.ConcurrentStart {
+			// every start event is triggered by its own StartWith call, all at the same time
+			if procs := defs.Processes(); len(*procs) > 0 {
+				starts := (*procs)[0].StartEvents()
+				if len(*starts) >= 2 {
+					var wg sync.WaitGroup
+					gate := make(chan struct{})
+					for i := range *starts {
+						el := &(*starts)[i]
+						wg.Add(1)
+						go func() {
+							defer wg.Done()
+							<-gate
+							if err := inst.StartWith(ctx, el); err != nil {
+								r.mu.Lock()
+								r.add(Rec{Ev: "infra", Kind: "startwith: " + err.Error()})
+								r.mu.Unlock()
+							}
+						}()
+					}
+					close(gate)
+					wg.Wait()
+					return
+				}
+			}
+		}
 		if err := inst.StartAll(ctx); err != nil {
 			r.mu.Lock()
 			r.add(Rec{Ev: "infra", Kind: "startall: " + err.Error()})
